@@ -110,3 +110,123 @@ func partStepThrough(c *check.Ctx, a *acc, victims []string) {
 	c.Coverage["step_through_distinct_victim_points"] = len(sites)
 	a.add(runs, reached, fmt.Sprintf("E2 step-through: a join by id, a departure, a session-switching join and an entity deletion are parked at each scheduling point they pass (%d distinct (operation, point) pairs reached) while a member adds and deletes entities, updates a component, sets an action, adds an asset and sends a custom message; at quiescence the witness's and the victim's folded views against a probe, exactly-once of the script's and the victim's relays at the witness, the departed victim's leftovers, and gauge / registry / frame workers; non-trivial when the victim was actually parked", len(sites)), samples...)
 }
+
+// partStepPairs: two preemptions. A second operation (a join of, or another
+// member's departure from, the session the first victim acts on) is parked at
+// one of its own scheduling points while the first victim is still parked;
+// both release orders. The pairs are sampled (seed-determined) from the
+// product of the two operations' points.
+func partStepPairs(c *check.Ctx, a *acc, families [][2]string) {
+	bin, err := c.WS.Build("lab", "plain")
+	if err != nil {
+		c.Inconc("build failed: " + err.Error())
+		return
+	}
+	sites := map[string][]string{}
+	{
+		p, err := c.WS.StartLab(bin, sut.LabOpts{Frame: 4 * time.Millisecond, RT: "sched", Name: "pairlearn"})
+		if err != nil {
+			c.Inconc(err.Error())
+			return
+		}
+		need := map[string]bool{}
+		for _, f := range families {
+			need[f[0]] = true
+			need[map[string]string{"join2": "join", "leave2": "leave"}[f[1]]] = true
+		}
+		for v := range need {
+			cs, err := e2.StepSites(p, v)
+			if err != nil {
+				c.Inconc(err.Error())
+				continue
+			}
+			seen := map[string]bool{}
+			for _, sc := range cs {
+				if !seen[sc.Site] {
+					seen[sc.Site] = true
+					sites[v] = append(sites[v], sc.Site)
+				}
+			}
+		}
+		p.Kill()
+	}
+	var all []e2.StepCase
+	for _, f := range families {
+		second := map[string]string{"join2": "join", "leave2": "leave"}[f[1]]
+		for _, s1 := range sites[f[0]] {
+			for _, s2 := range sites[second] {
+				if s1 == s2 {
+					continue
+				}
+				for _, sf := range []bool{false, true} {
+					all = append(all, e2.StepCase{Victim: f[0], Site: s1, Victim2: f[1], Site2: s2, SecondFirst: sf})
+				}
+			}
+		}
+	}
+	n := c.Pick(160, 4000)
+	var cases []e2.StepCase
+	if len(all) <= n {
+		cases = all
+	} else {
+		// seed-determined sample without replacement (multiplicative stride)
+		stride := uint64(len(all))/uint64(n) | 1
+		start := (uint64(c.Seed) * 0x9E3779B97F4A7C15) % uint64(len(all))
+		for i := 0; i < n; i++ {
+			cases = append(cases, all[(start+uint64(i)*stride)%uint64(len(all))])
+		}
+	}
+	var mu sync.Mutex
+	runs, reached, both := 0, 0, 0
+	perFamily := map[string]int{}
+	workers := 12
+	parallel(workers, workers, func(w int) {
+		var p *sut.Proc
+		defer func() {
+			if p != nil {
+				p.Kill()
+			}
+		}()
+		for i := w; i < len(cases); i += workers {
+			if p == nil || !p.Alive() {
+				var err error
+				p, err = c.WS.StartLab(bin, sut.LabOpts{Frame: 4 * time.Millisecond, RT: "sched", Name: "pair", Locks: stepLocks})
+				if err != nil {
+					c.Inconc(err.Error())
+					return
+				}
+			}
+			res := e2.StepRun(p, cases[i])
+			if os.Getenv("VERIF_STEP_DEBUG") != "" {
+				fmt.Printf("STEP %s reached=%v second=%v findings=%d inconclusive=%q\n", cases[i], res.GateReached, res.Second, len(res.Findings), res.Inconclusive)
+			}
+			mu.Lock()
+			runs++
+			if res.GateReached {
+				reached++
+				if res.Second {
+					both++
+					perFamily[cases[i].Victim+" x "+cases[i].Victim2]++
+				}
+			}
+			if res.Inconclusive != "" {
+				c.Inconc(res.Inconclusive)
+			}
+			for _, f := range res.Findings {
+				c.Report(f)
+			}
+			bad := len(res.Findings) > 0 || res.Inconclusive != ""
+			mu.Unlock()
+			if bad {
+				p.Kill()
+				p = nil
+			}
+		}
+	})
+	c.Coverage["step_pairs_possible"] = len(all)
+	c.Coverage["step_pairs_runs"] = runs
+	c.Coverage["step_pairs_first_victim_parked"] = reached
+	c.Coverage["step_pairs_both_parked"] = both
+	c.Coverage["step_pairs_both_parked_per_family"] = perFamily
+	a.add(runs, both, fmt.Sprintf("E2 step-through with two preemptions: while the first victim is parked, a join of / a departure from the same session is parked at one of its own points; both release orders; %d of %d possible (point, point, order) triples sampled by the seed; same oracles as the step-through; non-trivial when both were parked at once", len(cases), len(all)))
+}
